@@ -58,9 +58,10 @@ Finish(t) == t \in begun /\ t \notin finished /\ finished' = finished \cup {t} /
 \* not begun again and is terminated as before
 ReviveCall(t) == /\ t \in finished /\ Cardinality(UnitsOf(t)) <= 1
                  /\ begun' = begun \ {t} /\ finished' = finished \ {t} /\ UNCHANGED <<live, queued>>
-ReviveRet(t, ok) == /\ Cardinality(UnitsOf(t)) <= 1
-                    /\ IF ok THEN UNCHANGED <<begun, finished>>
-                       ELSE t \notin begun /\ begun' = begun \cup {t} /\ finished' = finished \cup {t}
+\* (by the time a successful call is logged the unit may already run and be on its way to another pool)
+ReviveRet(t, ok) == /\ IF ok THEN UNCHANGED <<begun, finished>>
+                       ELSE /\ Cardinality(UnitsOf(t)) <= 1 /\ t \notin begun
+                            /\ begun' = begun \cup {t} /\ finished' = finished \cup {t}
                     /\ UNCHANGED <<live, queued>>
 \* a named work unit has been freed: it has no unit any more
 Freed(t) == t \in finished /\ UnitsOf(t) = {} /\ UNCHANGED hvars
